@@ -1,22 +1,30 @@
 import Fx.RtDriver
 import Fx.FrontDriver
 import Fx.GenDriver
+import Fx.DecDriver
 open Fx
 
-def handle (line : String) : String :=
+def handle (st : DState) (line : String) : String × DState :=
   match line.trimAscii.toString.splitOn " " |>.filter (· ≠ "") with
-  | "rt" :: rest => rtRequest rest
-  | "ast" :: rest => frontRequest rest
-  | "gen" :: rest => genRequest rest
-  | _ => "bad-op"
+  | "rt" :: rest => (rtRequest rest, st)
+  | "ast" :: rest => (frontRequest rest, st)
+  | "gen" :: rest => (genRequest rest, st)
+  | ["spec", h] =>
+    (match textOfHex h with
+     | some t => let (reply, l) := loadSpec t; (reply, st.push l)
+     | none => ("bad-op", st.push none))
+  | "dec" :: rest => (decRequest st rest, st)
+  | "genval" :: rest => (genvalRequest st rest, st)
+  | _ => ("bad-op", st)
 
-partial def loop (h : IO.FS.Stream) (out : IO.FS.Stream) : IO Unit := do
+partial def loop (h : IO.FS.Stream) (out : IO.FS.Stream) (st : DState) : IO Unit := do
   let line ← h.getLine
   if line.isEmpty then return ()
-  out.putStrLn (handle line)
-  loop h out
+  let (reply, st') := handle st line
+  out.putStrLn reply
+  loop h out st'
 
 def main : IO Unit := do
   let out ← IO.getStdout
-  loop (← IO.getStdin) out
+  loop (← IO.getStdin) out #[]
   out.flush
